@@ -1,6 +1,6 @@
 -- regenerated from /repo by bin/vcore.py (consts group "cipher"); do not edit
 namespace Emitter.Generated
-def base64Alphabet : String := "ABCDEFGHIJKLMNOPQRSTUVWXYZabcdefghijklmnopqrstuvwxyz0123456789-_"
+def base64Alphabet : List UInt8 := [65, 66, 67, 68, 69, 70, 71, 72, 73, 74, 75, 76, 77, 78, 79, 80, 81, 82, 83, 84, 85, 86, 87, 88, 89, 90, 97, 98, 99, 100, 101, 102, 103, 104, 105, 106, 107, 108, 109, 110, 111, 112, 113, 114, 115, 116, 117, 118, 119, 120, 121, 122, 48, 49, 50, 51, 52, 53, 54, 55, 56, 57, 45, 95]
 def xteaDelta : UInt32 := 2654435769
 def xteaRounds : Nat := 32
 def xteaSum : UInt32 := 3337565984
